@@ -18,6 +18,12 @@ theorem gen_beaker_starttime :
   decide
 /-- the call site of a block writes what the block returns (/repo 248d875) -/
 theorem gen_block_result_written : blockResultWritten = true := by decide
+/-- the cache decorator fetches the writer when it is called: what a cached section writes goes to the buffer on top at
+    call time, as for the uncached section -/
+theorem gen_decorator_fetches_writer : decoratorFetchesWriter = true := by decide
+/-- `context.get('local')` in a template's callables is that template's own namespace, also for an inherited template:
+    a section uses the cache of the template that declares it (`eff`) -/
+theorem gen_local_is_declaring_template : localIsDeclaringTemplate = true := by decide
 
 /-- the translator understood the source the constants below were read from (else `Generated/CacheStatus.lean` does
     not build and says why) -/
@@ -208,20 +214,23 @@ theorem nodup_sectionKw (page h : Hdr) (env : Env) : (keysOf (sectionKw page h e
 
 /-- the key under which a cached section goes to the back end from state `st` -/
 def backendKey (P : Params R) (st : St R) (h : Hdr) (env' : Env) : Key R :=
-  (cid P.tm,
-   P.be.regionOf (getCacheKw P.tm.cacheArgs (st.regions P.tid) (fname h) (sectionKw P.tm.page h env')).1,
+  (cid (eff P h).tm,
+   P.be.regionOf (getCacheKw (eff P h).tm.cacheArgs (st.regions (eff P h).tid) (fname h)
+     (sectionKw (eff P h).tm.page h env')).1,
    keyOf h env')
 
 /-- the keyword arguments handed to `impl.get_or_create` -/
 def sentKw (P : Params R) (st : St R) (h : Hdr) (env' : Env) : Kw :=
-  addCtx P.be.passContext (getCacheKw P.tm.cacheArgs (st.regions P.tid) (fname h) (sectionKw P.tm.page h env')).1
+  addCtx P.be.passContext (getCacheKw (eff P h).tm.cacheArgs (st.regions (eff P h).tid) (fname h)
+    (sectionKw (eff P h).tm.page h env')).1
 
 /-- state right after the wrapper has called `impl.get_or_create`: `_def_regions` memo updated, call recorded -/
 def afterCall (P : Params R) (st : St R) (h : Hdr) (env' : Env) : St R :=
-  (st.setRegions P.tid (getCacheKw P.tm.cacheArgs (st.regions P.tid) (fname h) (sectionKw P.tm.page h env')).2).emit
-    (.call P.tid .goc (cid P.tm) (keyOf h env') (sentKw P st h env'))
+  (st.setRegions (eff P h).tid (getCacheKw (eff P h).tm.cacheArgs (st.regions (eff P h).tid) (fname h)
+      (sectionKw (eff P h).tm.page h env')).2).emit
+    (.call (eff P h).tid .goc (cid (eff P h).tm) (keyOf h env') (sentKw P st h env'))
 
-theorem run_inv_uncached (P : Params R) (env : Env) (h : Hdr) (arg : Option Expr) (site : Bool) (body rest : Items)
+theorem run_inv_uncached (P : Params R) (env : Env) (h : Hdr) (arg : Option Expr) (site : Site) (body rest : Items)
     (st : St R) (hc : h.cached = false) :
     run P env (.inv h arg site body rest) st =
       let b := run P (scope P h env arg) body st
@@ -229,35 +238,35 @@ theorem run_inv_uncached (P : Params R) (env : Env) (h : Hdr) (arg : Option Expr
       (deliver h site (finish h b.1) ++ r.1, r.2) := by
   simp [run, hc]
 
-theorem run_inv_disabled (P : Params R) (env : Env) (h : Hdr) (arg : Option Expr) (site : Bool) (body rest : Items)
-    (st : St R) (hc : h.cached = true) (hen : st.enabled P.tid = false) :
+theorem run_inv_disabled (P : Params R) (env : Env) (h : Hdr) (arg : Option Expr) (site : Site) (body rest : Items)
+    (st : St R) (hc : h.cached = true) (hen : st.enabled (eff P h).tid = false) :
     run P env (.inv h arg site body rest) st =
-      let b := run P (scope P h env arg) body (st.emit (.bypass P.tid (fname h)))
+      let b := run P (scope P h env arg) body (st.emit (.bypass (eff P h).tid (fname h)))
       let r := run P env rest b.2
       (deliver h site (finish h b.1) ++ r.1, r.2) := by
   simp [run, hc, hen]
 
-theorem run_inv_hit (P : Params R) (env : Env) (h : Hdr) (arg : Option Expr) (site : Bool) (body rest : Items)
-    (st : St R) (v : Str) (hc : h.cached = true) (hen : st.enabled P.tid = true)
-    (hs : visible P.be st P.tid (backendKey P st h (scope P h env arg)) = some v) :
+theorem run_inv_hit (P : Params R) (env : Env) (h : Hdr) (arg : Option Expr) (site : Site) (body rest : Items)
+    (st : St R) (v : Str) (hc : h.cached = true) (hen : st.enabled (eff P h).tid = true)
+    (hs : visible P.be st (eff P h).tid (backendKey P st h (scope P h env arg)) = some v) :
     run P env (.inv h arg site body rest) st =
       let st1 := (afterCall P st h (scope P h env arg)).emit
-        (.enter P.tid (fname h) (backendKey P st h (scope P h env arg)) (.hit v))
+        (.enter (eff P h).tid (fname h) (backendKey P st h (scope P h env arg)) (.hit v))
       let r := run P env rest st1
       (deliver h site v ++ r.1, r.2) := by
   unfold backendKey at hs
   simp [run, hc, hen, hs, afterCall, sentKw, backendKey]
 
-theorem run_inv_miss (P : Params R) (env : Env) (h : Hdr) (arg : Option Expr) (site : Bool) (body rest : Items)
-    (st : St R) (hc : h.cached = true) (hen : st.enabled P.tid = true)
-    (hs : visible P.be st P.tid (backendKey P st h (scope P h env arg)) = none) :
+theorem run_inv_miss (P : Params R) (env : Env) (h : Hdr) (arg : Option Expr) (site : Site) (body rest : Items)
+    (st : St R) (hc : h.cached = true) (hen : st.enabled (eff P h).tid = true)
+    (hs : visible P.be st (eff P h).tid (backendKey P st h (scope P h env arg)) = none) :
     run P env (.inv h arg site body rest) st =
       let env' := scope P h env arg
       let K := backendKey P st h env'
-      let st0 := (afterCall P st h env').emit (.enter P.tid (fname h) K .miss)
+      let st0 := (afterCall P st h env').emit (.enter (eff P h).tid (fname h) K .miss)
       let b := run P env' body st0
       let v := finish h b.1
-      let r := run P env rest ((b.2.put K v).emit (.created P.tid (fname h) K v ⟨h, body, env', P.ctx, st0.snap⟩))
+      let r := run P env rest ((b.2.put K v).emit (.created (eff P h).tid (fname h) K v ⟨P.tid, h, body, env', P.ctx, st0.snap⟩))
       (deliver h site v ++ r.1, r.2) := by
   unfold backendKey at hs
   simp [run, hc, hen, hs, afterCall, sentKw, backendKey]
@@ -268,14 +277,15 @@ theorem run_inv_miss (P : Params R) (env : Env) (h : Hdr) (arg : Option Expr) (s
     one – a creation function has returned – knows which body ran from which state) -/
 structure Preserved (P : Params R) (T : Items) (I : St R → Prop) : Prop where
   tick : ∀ st t, I st → I (st.emit (.tick t))
-  bypass : ∀ st h, h ∈ hdrs T → I st → st.enabled P.tid = false → I (st.emit (.bypass P.tid (fname h)))
-  hit : ∀ st h env' v, h ∈ hdrs T → I st → st.enabled P.tid = true → visible P.be st P.tid (backendKey P st h env') = some v →
-    I ((afterCall P st h env').emit (.enter P.tid (fname h) (backendKey P st h env') (.hit v)))
-  miss : ∀ st h env', h ∈ hdrs T → I st → st.enabled P.tid = true → visible P.be st P.tid (backendKey P st h env') = none →
-    I ((afterCall P st h env').emit (.enter P.tid (fname h) (backendKey P st h env') .miss))
+  bypass : ∀ st h, h ∈ hdrs T → I st → st.enabled (eff P h).tid = false → I (st.emit (.bypass (eff P h).tid (fname h)))
+  hit : ∀ st h env' v, h ∈ hdrs T → I st → st.enabled (eff P h).tid = true → visible P.be st (eff P h).tid (backendKey P st h env') = some v →
+    I ((afterCall P st h env').emit (.enter (eff P h).tid (fname h) (backendKey P st h env') (.hit v)))
+  miss : ∀ st h env', h ∈ hdrs T → I st → st.enabled (eff P h).tid = true → visible P.be st (eff P h).tid (backendKey P st h env') = none →
+    I ((afterCall P st h env').emit (.enter (eff P h).tid (fname h) (backendKey P st h env') .miss))
   created : ∀ st0 h body env' r key, h ∈ hdrs T → I (run P env' body st0).2 →
-    I (((run P env' body st0).2.put (cid P.tm, r, key) (finish h (run P env' body st0).1)).emit
-      (.created P.tid (fname h) (cid P.tm, r, key) (finish h (run P env' body st0).1) ⟨h, body, env', P.ctx, st0.snap⟩))
+    I (((run P env' body st0).2.put (cid (eff P h).tm, r, key) (finish h (run P env' body st0).1)).emit
+      (.created (eff P h).tid (fname h) (cid (eff P h).tm, r, key) (finish h (run P env' body st0).1)
+        ⟨P.tid, h, body, env', P.ctx, st0.snap⟩))
 
 theorem run_preserves (P : Params R) (T : Items) (I : St R → Prop) (hp : Preserved P T I) :
     ∀ (its : Items) (env : Env) (st : St R), (∀ h, h ∈ hdrs its → h ∈ hdrs T) → I st → I (run P env its st).2 := by
@@ -293,8 +303,8 @@ theorem run_preserves (P : Params R) (T : Items) (I : St R → Prop) (hp : Prese
     have hsb : ∀ x, x ∈ hdrs body → x ∈ hdrs T := fun x hx => hsub x (by simp [hdrs, hx])
     have hsr : ∀ x, x ∈ hdrs rest → x ∈ hdrs T := fun x hx => hsub x (by simp [hdrs, hx])
     by_cases hc : h.cached = true
-    · by_cases hen : st.enabled P.tid = true
-      · cases hs : visible P.be st P.tid (backendKey P st h (scope P h env arg)) with
+    · by_cases hen : st.enabled (eff P h).tid = true
+      · cases hs : visible P.be st (eff P h).tid (backendKey P st h (scope P h env arg)) with
         | some v =>
           rw [run_inv_hit P env h arg site body rest st v hc hen hs]
           exact ihr env _ hsr (hp.hit st h _ v hh hi hen hs)
@@ -302,7 +312,7 @@ theorem run_preserves (P : Params R) (T : Items) (I : St R → Prop) (hp : Prese
           rw [run_inv_miss P env h arg site body rest st hc hen hs]
           refine ihr env _ hsr ?_
           exact hp.created _ h body _ _ _ hh (ihb _ _ hsb (hp.miss st h _ hh hi hen hs))
-      · have hen' : st.enabled P.tid = false := by simpa using hen
+      · have hen' : st.enabled (eff P h).tid = false := by simpa using hen
         rw [run_inv_disabled P env h arg site body rest st hc hen']
         exact ihr env _ hsr (ihb _ _ hsb (hp.bypass st h hh hi hen'))
     · have hc' : h.cached = false := by simpa using hc
